@@ -29,7 +29,8 @@ def execute(beh, kind, precision, seed):
 
 def run_one(chk, beh, kind, prec, seed):
     import scared
-    a, mk = pl.build(kind, 'attack', prec, convergence_step=int(beh['step']))
+    nclass = 2 if seed % 3 == 0 else 9            # two classes: with a handful of traces every class of a word is populated (nine: some stay empty)
+    a, mk = pl.build(kind, 'attack', prec, convergence_step=int(beh['step']), nclass=nclass)
     rec = pl.Recorder(a)
     colpos = []
     cc0 = a._compute_convergence_traces
@@ -82,7 +83,7 @@ def run_one(chk, beh, kind, prec, seed):
     if want_pos and not (np.array_equal(lastc.astype('float64'), fin.astype('float64'), equal_nan=True) or (lastc.dtype.kind == 'f' and np.array_equal(lastc, fin.astype(lastc.dtype), equal_nan=True))):
         return 'the last column equals the final scores', {}
     # same run without convergence
-    b, _ = pl.build(kind, 'attack', prec, convergence_step=None)
+    b, _ = pl.build(kind, 'attack', prec, convergence_step=None, nclass=nclass)
     for c in conts:
         b.run(c)
     if not np.array_equal(np.asarray(a.results), np.asarray(b.results), equal_nan=True) or not np.array_equal(np.asarray(a.scores), np.asarray(b.scores), equal_nan=True):
